@@ -321,6 +321,7 @@ func (p *Plan) abstractAlternative(fp *fieldPlan, runtimeType *Object) *selectio
 // selectionPlan that mirrors what completeObjectValue's runtime
 // collectFields loop would produce.
 func (p *Plan) planMergedSelectionsForType(parentType *Object, fieldASTs []*ast.Field) *selectionPlan {
+	verifCount(VerifSitePlanMergedSelectionsForType)
 	sp := &selectionPlan{parentType: parentType}
 	keyed := map[string]int{}
 	visited := map[string]bool{}
@@ -356,6 +357,7 @@ func (p *Plan) planMergedSelectionsForType(parentType *Object, fieldASTs []*ast.
 // of the same response key merge their fieldASTs (matches
 // collectFields's `fields[name] = append(fields[name], selection)`).
 func (p *Plan) collectInto(parentType *Object, selectionSet *ast.SelectionSet, visitedFragmentNames map[string]bool, sp *selectionPlan, keyed map[string]int, parentPred func(map[string]interface{}) bool) {
+	verifCount(VerifSiteCollectInto)
 	for _, iSelection := range selectionSet.Selections {
 		switch sel := iSelection.(type) {
 		case *ast.Field:
